@@ -29,4 +29,4 @@ def run(tier, V, machinery):
         shutil.rmtree(wd, ignore_errors=True)
     for m in rep["mismatches"] or []:
         V.violation({"symptom": "report-views"}, "helper.Report chart views: " + m, {"mismatch": m})
-    return {"views_states": r.distinct, "views_histories": rep["histories"], "views_mismatches": len(rep["mismatches"] or [])}
+    return {"views_states": r.distinct, "views_histories": rep["histories"], "views_documents_rendered_and_read_back": rep.get("rendered", 0), "views_mismatches": len(rep["mismatches"] or [])}
